@@ -164,5 +164,38 @@ pub fn case(u: &mut Unstructured) -> Result<Case> {
         };
         conns.push(ConnScript { connect, steps, end });
     }
-    Ok(Case { cfg: Cfg { rx, tx, ..Cfg::default() }, broker: if auto { BrokerMode::AutoAck } else { BrokerMode::Scripted }, conns })
+    // Drawn last, so that inputs saved before these dimensions existed keep their meaning (an
+    // exhausted input yields the old constant values).
+    if u.ratio(1, 4)? {
+        for c in conns.iter_mut().skip(1) {
+            c.connect.props.receive_max = *u.choose(&[None, Some(1u16), Some(2), Some(3), Some(8), Some(65535)])?;
+        }
+    }
+    let mq = *u.choose(&[None, None, None, Some(0u8), Some(1)])?;
+    for c in conns.iter_mut() {
+        c.connect.props.max_qos = mq;
+    }
+    let downgrade = u.ratio(1, 3)?;
+    let session_expiry = *u.choose(&[3600u32, 3600, 3600, 0, 1, u32::MAX])?;
+    if u.ratio(1, 5)? {
+        // planned smaller Maximum Packet Size on later connections (the broker model applies it
+        // only where everything the client may retain fits)
+        for c in conns.iter_mut().skip(1) {
+            if u.arbitrary()? {
+                c.connect.props.max_packet = Some(*u.choose(&[5u32, 6, 8, 20])?);
+            }
+        }
+    }
+    if u.ratio(1, 10)? {
+        // a well-framed success CONNACK that the client rejects while reading its properties
+        let i = u.int_in_range(0..=conns.len() - 1)?;
+        let bytes: &[u8] = *u.choose(&[
+            &[0x20u8, 0x06, 0x00, 0x00, 0x03, 0x21, 0x00, 0x00][..],
+            &[0x20, 0x05, 0x00, 0x00, 0x02, 0x24, 0x03][..],
+            &[0x20, 0x06, 0x01, 0x00, 0x03, 0x21, 0x00, 0x00][..],
+            &[0x20, 0x05, 0x01, 0x00, 0x02, 0x24, 0x03][..],
+        ])?;
+        conns[i].connect.handshake = Handshake::Garbage(bytes.to_vec());
+    }
+    Ok(Case { cfg: Cfg { rx, tx, downgrade, session_expiry, ..Cfg::default() }, broker: if auto { BrokerMode::AutoAck } else { BrokerMode::Scripted }, conns })
 }
